@@ -305,14 +305,117 @@ fn refusals(cfg: &Cfg, grp: &str, case: u64, rng: &mut Rng, rep: &mut Report) {
     }
 }
 
+// ------------------------------------------------------------------ plaintext-valued evaluator operations
+/// independent validity predicate for an NTT-form plaintext returned by an evaluator operation
+fn valid_ntt_plain(kit: &Kit, p: &Plaintext) -> Result<(), String> {
+    if !p.is_ntt_form() { return Err("not flagged as NTT form".into()); }
+    let Some(level) = kit.level_of(p.parms_id()) else { return Err("parms id is not a data level of the context".into()) };
+    let qs = kit.level_qs(level); let n = kit.n();
+    if p.coeff_count() != n * qs.len() { return Err(format!("coefficient count {} but its level has {} primes of degree {} (expected {})", p.coeff_count(), qs.len(), n, n * qs.len())); }
+    if p.data().len() < p.coeff_count() { return Err(format!("buffer length {} below coefficient count {}", p.data().len(), p.coeff_count())); }
+    for (i, &q) in qs.iter().enumerate() { for j in 0..n { let x = p.data()[i * n + j]; if x >= q { return Err(format!("residue {} >= modulus {} at component {} index {}", x, q, i, j)); } } }
+    if !(p.scale().is_finite() && p.scale() > 0.0) { return Err(format!("scale {}", p.scale())); }
+    Ok(())
+}
+fn same_plain(a: &Plaintext, b: &Plaintext) -> bool {
+    a.parms_id() == b.parms_id() && a.coeff_count() == b.coeff_count() && a.scale().to_bits() == b.scale().to_bits() && a.is_ntt_form() == b.is_ntt_form() && a.data()[..a.coeff_count()] == b.data()[..b.coeff_count()]
+}
+
+/// transform_plain_to_ntt, mod_switch_to_next_plain and mod_switch_plain_to (every source/target level pair), each in its three
+/// forms: results valid for the context, the forms bit-identical, the operand unchanged, the result accepted by a later operation.
+fn plain_ops(cfg: &Cfg, grp: &str, case: u64, rng: &mut Rng, rep: &mut Report, ns: &[usize]) {
+    let scheme = *rng.pick(&[SchemeType::BFV, SchemeType::BGV, SchemeType::CKKS]);
+    let spec = if scheme == SchemeType::CKKS { crate::props::c03::ckks_spec(rng, ns) } else { program_spec(rng, ns, Some(scheme)) };
+    let Some(spec) = spec else { rep.count("generator", "no_spec"); return; };
+    let Ok(kit) = Kit::new(&spec) else { rep.count("generator", "context_rejected"); return; };
+    let o = Obs { cfg, grp, case };
+    let sname = spec.scheme_name(); let n = kit.n(); let nl = kit.levels.len(); let ev = &kit.eval;
+    let scale = 2f64.powi(rng.range(10, 24) as i32);
+    let no_trace: Vec<String> = vec![];
+    // a ciphertext per level for the "accepted by a later operation" clause
+    let base_ct = if scheme == SchemeType::CKKS {
+        let vals: Vec<C64> = (0..n / 2).map(|j| C64::new((j % 7) as f64 - 3.0, 0.5)).collect();
+        lib(|| kit.enc.encrypt_new(&kit.ckks.as_ref().unwrap().encode_c64_array_new(&vals, None, scale)))
+    } else { let (_, c) = gen_plain(rng, n, kit.t()); lib(|| kit.enc.encrypt_new(&kit.plain_from_coeffs(&c))) };
+    for src in 0..nl {
+        let sid = *kit.levels[src].parms_id();
+        // ---- the source plaintext in NTT form on level `src`
+        let p = if scheme == SchemeType::CKKS {
+            let vals: Vec<C64> = (0..n / 2).map(|_| C64::new(rng.f64() * 8.0 - 4.0, rng.f64() * 2.0 - 1.0)).collect();
+            match lib(|| kit.ckks.as_ref().unwrap().encode_c64_array_new(&vals, Some(sid), scale)) { Ok(p) => p, Err(_) => { rep.out_of_precondition += 1; continue; } }
+        } else {
+            let (_, c) = gen_plain(rng, n, kit.t()); let pl = kit.plain_from_coeffs(&c);
+            let snap = pl.clone();
+            let forms: Vec<Result<Plaintext, Panicked>> = vec![
+                lib(|| { let mut x = pl.clone(); ev.transform_plain_to_ntt_inplace(&mut x, &sid); x }),
+                lib(|| { let mut d = Plaintext::new(); ev.transform_plain_to_ntt(&pl, &sid, &mut d); d }),
+                lib(|| ev.transform_plain_to_ntt_new(&pl, &sid))];
+            rep.count("plain_ops", &format!("{}|transform_plain_to_ntt|L{}", sname, src)); rep.eval(Some(&format!("{}|tpn|{}|{}", sname, n, src)));
+            if pl.data() != snap.data() || pl.coeff_count() != snap.coeff_count() { viol(&o, rep, "transform_plain_to_ntt", sname, "operand_modified", "a read-only operand changed".into(), &spec, &no_trace); }
+            if forms.iter().any(|f| f.is_err()) { viol(&o, rep, "transform_plain_to_ntt", sname, "panic", format!("a valid plaintext was refused at level {}: {:?}", src, forms.iter().map(|f| f.as_ref().err().map(|e| e.0.clone())).collect::<Vec<_>>()), &spec, &no_trace); continue; }
+            let f: Vec<Plaintext> = forms.into_iter().map(|x| x.unwrap()).collect();
+            if !same_plain(&f[0], &f[1]) || !same_plain(&f[0], &f[2]) { viol(&o, rep, "transform_plain_to_ntt", sname, "forms_differ", format!("the three forms disagree at level {}", src), &spec, &no_trace); }
+            if let Err(e) = valid_ntt_plain(&kit, &f[2]) { viol(&o, rep, "transform_plain_to_ntt", sname, "invalid_result", e, &spec, &no_trace); continue; }
+            f.into_iter().nth(2).unwrap()
+        };
+        if let Err(e) = valid_ntt_plain(&kit, &p) { rep.note(&format!("source plaintext not valid ({}); skipped", e)); continue; }
+        for tgt in src..nl {
+            let tid = *kit.levels[tgt].parms_id();
+            let snap = p.clone();
+            let mut runs: Vec<(&str, Vec<Result<Plaintext, Panicked>>)> = vec![("mod_switch_plain_to", vec![
+                lib(|| { let mut x = p.clone(); ev.mod_switch_plain_to_inplace(&mut x, &tid); x }),
+                lib(|| { let mut d = Plaintext::new(); ev.mod_switch_plain_to(&p, &tid, &mut d); d }),
+                lib(|| ev.mod_switch_plain_to_new(&p, &tid))])];
+            if tgt == src + 1 { runs.push(("mod_switch_to_next_plain", vec![
+                lib(|| { let mut x = p.clone(); ev.mod_switch_to_next_plain_inplace(&mut x); x }),
+                lib(|| { let mut d = Plaintext::new(); ev.mod_switch_to_next_plain(&p, &mut d); d }),
+                lib(|| ev.mod_switch_to_next_plain_new(&p))])); }
+            if !same_plain(&p, &snap) { viol(&o, rep, "mod_switch_plain_to", sname, "operand_modified", "a read-only operand changed".into(), &spec, &no_trace); }
+            let mut reference: Option<Plaintext> = None;
+            for (opn, forms) in runs {
+                let cls = format!("{}|{}", sname, if tgt == src { "same_level" } else if tgt == src + 1 { "one_level" } else { "several_levels" });
+                rep.count("plain_ops", &format!("{}|{}|{}->{}", sname, opn, src, tgt)); rep.eval(Some(&format!("{}|{}|{}|{}|{}", sname, opn, n, src, tgt)));
+                let nerr = forms.iter().filter(|f| f.is_err()).count();
+                if nerr == 3 { if tgt > src { viol(&o, rep, opn, &cls, "panic", format!("a valid NTT-form plaintext was refused ({}->{}): {}", src, tgt, forms[0].as_ref().err().unwrap().0), &spec, &no_trace); } continue; }
+                if nerr != 0 { viol(&o, rep, opn, &cls, "forms_differ", format!("some forms refuse, others do not ({}->{})", src, tgt), &spec, &no_trace); continue; }
+                let f: Vec<&Plaintext> = forms.iter().map(|x| x.as_ref().unwrap()).collect();
+                if !same_plain(f[0], f[1]) || !same_plain(f[0], f[2]) { viol(&o, rep, opn, &cls, "forms_differ", format!("the three forms disagree ({}->{}): coefficient counts {} {} {}", src, tgt, f[0].coeff_count(), f[1].coeff_count(), f[2].coeff_count()), &spec, &no_trace); }
+                if f[2].parms_id() != &tid { viol(&o, rep, opn, &cls, "invalid_result", format!("result is not on the requested level ({}->{})", src, tgt), &spec, &no_trace); continue; }
+                if let Err(e) = valid_ntt_plain(&kit, f[2]) { viol(&o, rep, opn, &cls, "invalid_result", format!("{} ({}->{})", e, src, tgt), &spec, &no_trace); continue; }
+                if !lib(|| f[2].is_valid_for(&kit.ctx)).unwrap_or(false) { viol(&o, rep, opn, &cls, "invalid_result", format!("the library's own is_valid_for rejects the result ({}->{})", src, tgt), &spec, &no_trace); continue; }
+                match &reference { None => reference = Some(f[2].clone()), Some(r) => if !same_plain(r, f[2]) { viol(&o, rep, opn, &cls, "forms_differ", format!("mod_switch_to_next_plain and mod_switch_plain_to disagree ({}->{})", src, tgt), &spec, &no_trace); } }
+            }
+            // ---- accepted by a later operation on a ciphertext of the target level
+            if let (Some(res), Ok(ct0)) = (reference.as_ref(), base_ct.as_ref()) {
+                let ct_t = lib(|| { let c = if tgt == 0 { ct0.clone() } else { ev.mod_switch_to_new(ct0, &tid) }; if scheme == SchemeType::BFV { ev.transform_to_ntt_new(&c) } else { c } });
+                if let Ok(ct_t) = ct_t {
+                    rep.count("plain_ops", &format!("{}|multiply_plain(after switch)|L{}", sname, tgt));
+                    if let Err(e) = lib(|| ev.multiply_plain_new(&ct_t, res)) {
+                        // CKKS refuses products whose scale does not fit the level: not a validity matter
+                        let fits = scheme != SchemeType::CKKS || ((ct_t.scale() * res.scale()).log2() as isize) < kit.level_qs(tgt).iter().map(|&q| refm_bits(q)).sum::<usize>() as isize;
+                        if fits && !res.data()[..res.coeff_count()].iter().all(|&x| x == 0) { viol(&o, rep, "mod_switch_plain_to", &format!("{}|later_multiply_plain", sname), "not_accepted", format!("the switched plaintext ({}->{}) is refused by multiply_plain: {}", src, tgt, e.0), &spec, &no_trace); }
+                    }
+                    if scheme == SchemeType::CKKS && res.scale().to_bits() == ct_t.scale().to_bits() {
+                        rep.count("plain_ops", &format!("{}|add_plain(after switch)|L{}", sname, tgt));
+                        if let Err(e) = lib(|| ev.add_plain_new(&ct_t, res)) { viol(&o, rep, "mod_switch_plain_to", &format!("{}|later_add_plain", sname), "not_accepted", format!("the switched plaintext ({}->{}) is refused by add_plain: {}", src, tgt, e.0), &spec, &no_trace); }
+                    }
+                }
+            }
+        }
+    }
+}
+fn refm_bits(q: u64) -> usize { crate::refm::bit_len(q) }
+
 pub fn run(cfg: &Cfg, rep: &mut Report) -> PropMeta {
     run_cases(cfg, "programs", cfg.n(24000, 300000) as u64, rep, |i, rng, rep| programs(cfg, "programs", i, rng, rep, &[2, 4, 8, 16, 32]));
     run_cases(cfg, "programs_mid", cfg.n(100, 2000) as u64, rep, |i, rng, rep| programs(cfg, "programs_mid", i, rng, rep, &[64, 256, 1024]));
     run_cases(cfg, "refusals", cfg.n(3000, 40000) as u64, rep, |i, rng, rep| refusals(cfg, "refusals", i, rng, rep));
+    run_cases(cfg, "plain_ops", cfg.n(1500, 20000) as u64, rep, |i, rng, rep| plain_ops(cfg, "plain_ops", i, rng, rep, &[4, 8, 16, 64]));
+    run_cases(cfg, "plain_ops_mid", cfg.n(8, 100) as u64, rep, |i, rng, rep| plain_ops(cfg, "plain_ops_mid", i, rng, rep, &[1024, 4096]));
     crate::props::c03::c06_hook(cfg, rep);
     PropMeta {
         id: "C06", level: "exploration",
-        rule: "(A) every step of random BFV/BGV/CKKS operation programs is executed in all three API forms (in-place on a clone, destination argument over a dirty destination, value-returning): results must be bit-identical, operands unchanged (also when one object is passed twice), result valid by is_valid_for and by an independent predicate; (B) single-field corruptions (residue = q, q+1, 2^64-1; foreign / other-context / key-level parms id; size 1 / 17; buffer one word short / long; scale; correction factor; unexpanded seed; level and representation mismatch; invalid plaintexts; seeded keys) x every public operation taking that operand: must panic. distinct = distinct (scheme, op, state) variant cells and (scheme, corruption, op, state) refusal cells",
+        rule: "(A) every step of random BFV/BGV/CKKS operation programs is executed in all three API forms (in-place on a clone, destination argument over a dirty destination, value-returning): results must be bit-identical, operands unchanged (also when one object is passed twice), result valid by is_valid_for and by an independent predicate; (B) single-field corruptions (residue = q, q+1, 2^64-1; foreign / other-context / key-level parms id; size 1 / 17; buffer one word short / long; scale; correction factor; unexpanded seed; level and representation mismatch; invalid plaintexts; seeded keys) x every public operation taking that operand: must panic. distinct = distinct (scheme, op, state) variant cells and (scheme, corruption, op, state) refusal cells (C) plaintext-valued operations: transform_plain_to_ntt, mod_switch_to_next_plain and mod_switch_plain_to for every (source, target) level pair of chains with 2..6 primes (N = 4..64, a few cases at 1024 / 4096), each in its three forms: results valid by an independent predicate and by is_valid_for, forms bit-identical, one-step and multi-step switching agree, operand unchanged, result accepted by multiply_plain / add_plain on a ciphertext of the target level",
         assumptions: vec!["any panic counts as a refusal".into(), "calls that are documented no-ops (mod_switch_to the current level, relinearize at size 2, rotate by 0, add_many of one operand) are excluded".into()],
         exhaustive: false, floor: 2000,
     }
